@@ -31,7 +31,8 @@ RULE = ("Hypothesis draws, for each of 24 accessor operations (whits s/sg/p, whi
         "to 1 thread. First-call races of the lazy-compilation wrapper: all thread schedules with <= 2 (thorough: 3) switches for 2 and 3 threads are "
         "enumerated at line level with a stub compiler, opcode-level schedules are generated; real kernels are raced in fresh processes "
         "(2..16 threads). Non-trivial: lazy run with > 1 block, thread count > 1 or a schedule with >= 1 pre-emption; distinct by hash. "
-        " Added after the fourth seeded round: Operations also with non-default dtype arguments (rolling.sum float64/int32, spi float32, zonal.mean float64).")
+        " Added after the fourth seeded round: Operations also with non-default dtype arguments (rolling.sum float64/int32, spi float32, zonal.mean float64). "
+        " Added after the fifth seeded round: Neighbouring pixels that agree on all but the first and last step.")
 ASSUME = ["the eager (numpy-backed) result is the oracle for lazy runs, the sequential result for races",
           "schedules are owned by the harness only for the Python-level wrapper; races inside Numba's compiler / prange are sampled with real threads"]
 
